@@ -257,6 +257,8 @@ pub(crate) enum ExprErrorKind {
     UnknownVariable(String),
     #[error("The function {0} is not implemented")]
     FunctionNotImplemented(&'static str),
+    #[error("random({0}) has no value to choose from")]
+    EmptyRandomRange(i64),
 }
 
 /// Could not construct static iterator
